@@ -115,7 +115,8 @@ class Judge:
         if not any(x["key"] == key for x in self.viol) and len(self.viol) < 80:
             self.viol.append({"key": key, "what": what, "detail": detail})
 
-    def peer(self, stage, kind, out, ctx, allowed=(httpcore.RemoteProtocolError,)):
+    def peer(self, stage, kind, out, ctx, allowed=(httpcore.RemoteProtocolError, httpcore.NetworkError)):
+        # (the peer also goes away after its last byte, so a read/write NetworkError is a true cause as well)
         """Outcome of a call whose peer sent (possibly) malformed data and then closed."""
         cnt = self.cnt
         cnt["inputs"] += 1
@@ -208,12 +209,20 @@ async def part_h2(flavor, case, J):
         pool = mk_pool(flavor, net, http2=True)
         api = API(flavor, pool, net)
         content = api.body([b"a" * 1000, b"b" * 1000]) if shape == "post" else None
-        out = await fetch(flavor, api, "POST" if shape == "post" else "GET", "https://o.test/x", content=content)
-        if out.kind == "hang":
-            # the peer must end its input for the no-hang clause: close 0.5 s after the client went quiet and retry
-            pass
         kind = mut["kind"] + (":" + mut["what"] if "what" in mut else "")
-        J.peer("h2", kind, out, {"flavor": flavor, "mutation": mut, "shape": shape})
+        if flavor != "sync" and i % 2:
+            # sibling streams: three concurrent requests multiplexed on the connection that receives the bad frame -
+            # every one of them must see a documented exception of the right class, not only the one that was reading
+            from .. import runners
+            mut["frame"] = 4 + mut["frame"]
+            outs = await runners.gather({f"s{k}": (lambda k=k: fetch(flavor, api, "GET", f"https://o.test/x{k}",
+                                                                      headers=[("X-Token", f"s{k}")])) for k in range(3)})
+            for name, o in sorted(outs.items()):
+                res = o.value if o.kind == "ok" else o
+                J.peer("h2-siblings", kind, res, {"flavor": flavor, "mutation": mut, "shape": "3 concurrent GETs", "caller": name})
+        else:
+            out = await fetch(flavor, api, "POST" if shape == "post" else "GET", "https://o.test/x", content=content)
+            J.peer("h2", kind, out, {"flavor": flavor, "mutation": mut, "shape": shape})
         await guarded(flavor, api.close_pool)
 
 
